@@ -254,7 +254,7 @@ func bytesDerived(v ssa.Value) bool {
 			return strings.HasSuffix(n, "Packet).Payload")
 		case *ssa.UnOp:
 			if f, _, ok := fieldLoad(x); ok {
-				return f.Name() == "Data" || f.Name() == "Payload"
+				return theProgram.baseFieldName(f) == "Data" || theProgram.baseFieldName(f) == "Payload"
 			}
 		case *ssa.FreeVar:
 			return true
